@@ -194,14 +194,23 @@ def _is_idx_lambda_broadcast_op(expr: IndexLambda) -> bool:
     from_shape = expr.bindings[input_name].shape
     to_shape = expr.shape
 
+    if len(from_shape) > len(to_shape):
+        return False
+
     for in_dim, brdcst_dim in zip(from_shape,
-                                  to_shape[-len(from_shape):],
+                                  to_shape[len(to_shape)-len(from_shape):],
                                   strict=True):
         if (not are_shape_components_equal(in_dim, brdcst_dim)
                 and not are_shape_components_equal(in_dim, 1)):
             return False
 
-    return True
+    # the operand must be accessed through exactly its broadcast subscript:
+    # a permuted or offset subscript is not a broadcast
+    if isinstance(expr.expr, p.Subscript):
+        return bool(expr.expr.index_tuple
+                    == get_indexing_expression(from_shape, to_shape))
+    else:
+        return len(from_shape) == 0
 
 
 def _is_normal_reduce_expr(expr: IndexLambda) -> bool:
